@@ -39,6 +39,9 @@ CLAIMED["C09"] = dict(technique="writer census with path conditions + exhaustive
 CLAIMED["C12"] = dict(technique="constant replacer tables evaluated in a model of POSIX/fish single-quote lexing (exhaustive short strings) + taint analysis with sanitisers and flag-guarded phi edges + provenance of re-launch arguments/environment",
   text="Decides three structural necessary conditions of shell-safe expansion: the quoting lemma for QuoteEntry/escapeSingleQuote from the tables in the code and table selection by the executing shell; item/query/prompt text reaches the expanded template only via QuoteEntry (or ordinal/temp path) except under the r/f flags; tmux/proxy re-launch quotes every argument and environment value. Does not decide the placeholder grammar.",
   note="The shell model (POSIX: literal until next quote, backslash-quote outside; fish: two escapes inside quotes) is the trusted base of R1.")
+CLAIMED["C17"] = dict(technique="error-discipline analysis over SSA use-def + typed AST, CFG ordering, regexp/syntax language vs switch cases, provenance of recorded indices, shape census of mask pieces",
+  text="Decides structural necessary conditions of command-line handling: no dropped/unused error among ~240 error-returning calls reachable from ParseOptions; file→env→argv layering with one shared occurrence counter; action-name tables agree (41 names within the masking regexp's language); main maps a parse error to exit 2; global occurrence indices for --tmux/--height; offset-preserving mask pieces; (thorough) MustCompile only on constants/QuoteMeta text. Does not decide totality of the splitter nor the bind round-trip.",
+  note="Scope = functions of package fzf reachable from ParseOptions by static calls/closures; writes that cannot fail are exempt by name prefix.")
 NA = {
 }
 ALL = ["C%02d" % i for i in range(1, 21)]
